@@ -300,6 +300,75 @@ theorem toInt_range (ds : DblSem) (hds : ∀ d r, ds.toI32 d = some r → inS 32
   · cases v <;> simp [Val.isDbl] at hd
     exact hds _ _ h
 
+/-! ### the IEEE instance of the double semantics (`Ieee.lean`, what the driver runs)
+
+Proved against the definitions of Ieee.lean: which function `toDouble()` applies to every non-double alternative
+(`toDouble_ieee`: `dOfInt`, round-to-nearest-even of the integer; `dOfStr` for strings), that conversion is odd
+(`dOfInt_neg`), the double → integer casts stay in the target range (`toInt_range_ieee`, all four widths), `==` on the
+instance is reflexive exactly off the NaN patterns (`ieee_eq_refl`: the hypothesis `NoNaN ieee` of `eq_copy` means "no NaN
+bit pattern").  The boundary table of integer → double rounding below is evaluated by the kernel (a test, not a
+theorem).
+
+OPEN: `dOfInt` is the correctly rounded conversion —
+    ∀ n, |n| < 2^64 → dOfInt n is finite ∧ |value (dOfInt n) - n| ≤ ulp/2, ties to the even mantissa; exact for |n| ≤ 2^53
+  (needs the `Nat.log2` normalisation of `dOfRat`); it is compared bit for bit with the real `(double)` casts and with
+  Python's `float(int)` after every operation of the correspondence run (token `<toDouble bits>`). -/
+
+/-- `toDouble()` on the driver's instance: the correctly-rounding `dOfInt` of the integer for bool and the four
+    integer alternatives (the value itself, no intermediate narrowing), `dOfStr` (`atof`) for strings, +0.0 otherwise -/
+theorem toDouble_ieee (v : Val) (hd : v.isDbl = false) :
+    v.toDouble ieee = (match v with
+      | .str s => dOfStr (cstr s)
+      | v => dOfInt (v.num true)) := by
+  cases v <;> simp [Val.isDbl] at hd <;> simp [Val.toDouble, Val.num, ieee]
+
+/-- integer → double is odd: the sign bit apart, `-n` converts like `n` -/
+theorem dOfInt_neg (n : Int) (h : 0 < n) : dOfInt (-n) = 2 ^ 63 + dOfInt n := by
+  have h1 : -n < 0 := by omega
+  have h2 : ¬ n < 0 := by omega
+  simp [dOfInt, h2, h]
+
+theorem dCast_range (lo hi : Int) (d : Nat) (r : Int) (h : dCast lo hi d = some r) : lo ≤ r ∧ r ≤ hi := by
+  unfold dCast at h
+  split at h
+  · split at h
+    · injection h with h; subst h; assumption
+    · cases h
+  · cases h
+
+/-- on the IEEE instance every integer conversion of every value stays in its target range, doubles included
+    (an out-of-range or non-finite double has no defined result: `none`) -/
+theorem toInt_range_ieee (v : Val) (hr : v.inRange) (r : Int) (h : v.toInt ieee = some r) : inS 32 r := by
+  refine toInt_range ieee ?_ v hr r h
+  intro d r h
+  have := dCast_range _ _ d r h
+  simp only [inS, pow31]; omega
+
+theorem toInt64_range_ieee (d : Nat) (r : Int) (h : (Val.dbl d).toInt64 ieee = some r) : inS 64 r := by
+  have := dCast_range _ _ d r h
+  simp only [inS, pow63]; omega
+
+theorem toUInt_range_ieee (d : Nat) (r : Int) (h : (Val.dbl d).toUInt ieee = some r) : inU 32 r := by
+  have := dCast_range _ _ d r h
+  simp only [inU, pow32]; omega
+
+theorem toUInt64_range_ieee (d : Nat) (r : Int) (h : (Val.dbl d).toUInt64 ieee = some r) : inU 64 r := by
+  have := dCast_range _ _ d r h
+  simp only [inU, pow64]; omega
+
+/-- `d == d` on the instance fails exactly for the NaN bit patterns -/
+theorem ieee_eq_refl (d : Nat) : ieee.eq d d = !dIsNaN d := by
+  simp only [ieee, dEq]
+  cases dIsNaN d <;> simp
+
+/-- boundary table of integer → double (kernel-evaluated): 2^53+1 ties to even, 2^63-1 and 2^64-1 round up to the
+    powers of two, 2^64-1025 rounds down to the largest double below 2^64, -(2^63) is exact -/
+example : dOfInt 9007199254740993 = 0x4340000000000000 ∧ dOfInt 9007199254740995 = 0x4340000000000002 ∧
+    dOfInt 9223372036854775807 = 0x43e0000000000000 ∧ dOfInt 18446744073709551615 = 0x43f0000000000000 ∧
+    dOfInt 18446744073709550591 = 0x43efffffffffffff ∧ dOfInt 18446744073709549568 = 0x43efffffffffffff ∧
+    dOfInt (-9223372036854775808) = 0xc3e0000000000000 ∧ dOfInt 1 = 0x3ff0000000000000 ∧ dOfInt 0 = 0 := by
+  refine ⟨?_, ?_, ?_, ?_, ?_, ?_, ?_, ?_, ?_⟩ <;> decide +kernel
+
 /-! ### integers and decimal strings
 
 `toString()` of an integer alternative is its decimal numeral (`toString_table`); reading that
